@@ -134,6 +134,7 @@ class Gen(object):
         if cands and (r < 0.65 or not allow_lit):
             f = self.rng.choice(cands)
             if (self.cfg["ps"] and mode == "U" and f["k"] == "s" and f["w"] >= 2
+                    and all(isinstance(x, str) for x in f["_p"])
                     and self.rng.random() < 0.15):
                 hi = self.rng.randint(0, f["w"] - 1)
                 lo = self.rng.randint(0, hi)
@@ -479,3 +480,171 @@ def shrink_record(rec, keys=("prog", "ops"), limit=200):
                         n2[side] = sub[s2]
                         add(path, n2)
     return cands[:limit]
+
+
+# ---------------------------------------------------------------------------
+# composite programs: object trees, lists, foreach, aggregates
+# ---------------------------------------------------------------------------
+def _loopvar(depth=0, it=True, off=0):
+    d = {"d": depth}
+    if it:
+        d["it"] = 1
+    if off:
+        d["o"] = off
+    return d
+
+
+class TreeGen(Gen):
+    """object trees of depth <= 3; classes are generated bottom-up"""
+
+    def __init__(self, rng, cfg=None, feats=None):
+        super().__init__(rng, cfg)
+        f = {"lists": True, "objlists": True, "nonrand_sub": True, "cb": False,
+             "dyn": False, "foreach": True, "agg": True, "cross": True, "enums": False,
+             "randsz": False, "depth": 2, "fanout": 2}
+        if feats:
+            f.update(feats)
+        self.feats = f
+        self.classes = []
+        self.enums = []
+        self._n = 0
+
+    def reach(self, cdef, prefix=None, rand_only=True, depth=3):
+        """scalar field descriptors (with paths) reachable from an object of
+        class cdef through random sub-objects / object-list elements"""
+        out = []
+        prefix = prefix or []
+        by_name = {c["name"]: c for c in self.classes}
+        for f in cdef["fields"]:
+            if f["k"] == "s":
+                g = dict(f)
+                g["_p"] = prefix + [f["n"]]
+                out.append(g)
+            elif f["k"] == "o" and depth > 0 and (f.get("r") or not rand_only):
+                out += self.reach(by_name[f["c"]], prefix + [f["n"]], rand_only, depth - 1)
+            elif f["k"] == "lo" and depth > 0 and (f.get("r") or not rand_only):
+                for i in range(f.get("sz", 0)):
+                    out += self.reach(by_name[f["c"]], prefix + [f["n"], i], rand_only, depth - 1)
+            elif f["k"] == "l" and not f.get("rsz") and all(isinstance(x, str) for x in prefix):
+                # (an element of a list that is itself reached through a list
+                # index raises NotImplementedError in the library: not generated)
+                for i in range(f.get("sz", 0)):
+                    out.append({"k": "s", "w": f["w"], "s": f["s"], "n": f["n"],
+                                "_p": prefix + [f["n"], i]})
+        return out
+
+    def make_class(self, level):
+        rng, ft = self.rng, self.feats
+        name = "K%d" % self._n
+        self._n += 1
+        fields = []
+        for i in range(rng.randint(1, 3)):
+            rand = not (self.cfg["nonrand"] and rng.random() < 0.2)
+            f = self.scalar_field("a%d" % i, rand)
+            if not rand:
+                f["i"] = self.in_range_value(f)
+            fields.append(f)
+        if ft["enums"] and self.enums and rng.random() < 0.4:
+            fields.append({"n": "e0", "k": "e", "en": rng.choice(self.enums)["name"],
+                           "r": rng.random() < 0.8})
+        if ft["lists"] and rng.random() < 0.6:
+            w = rng.choice([2, 3, 4])
+            fields.append({"n": "l0", "k": "l", "w": w, "s": bool(self.cfg["signed"] and rng.random() < 0.25),
+                           "r": rng.random() < 0.85, "rsz": False, "sz": rng.randint(1, 4)})
+        lower = [c for c in self.classes if c["_level"] < level]
+        if lower and level > 0:
+            for i in range(rng.randint(1, ft["fanout"])):
+                c = rng.choice(lower)
+                fields.append({"n": "o%d" % i, "k": "o", "c": c["name"],
+                               "r": not (ft["nonrand_sub"] and rng.random() < 0.25)})
+            if ft["objlists"] and rng.random() < 0.5:
+                c = rng.choice(lower)
+                fields.append({"n": "ol0", "k": "lo", "c": c["name"], "r": True,
+                               "sz": rng.randint(1, 3)})
+        cdef = {"name": name, "fields": fields, "blocks": [], "_level": level}
+        if ft["cb"]:
+            cdef["cb"] = True
+        self.classes.append(cdef)
+        # blocks
+        own = [dict(f, _p=[f["n"]]) for f in fields if f["k"] == "s"]
+        reach = self.reach(cdef) if ft["cross"] else own
+        nb = rng.randint(1, self.cfg["max_blocks"])
+        for b in range(nb):
+            stmts = []
+            for _ in range(rng.randint(1, self.cfg["max_stmts"])):
+                r = rng.random()
+                lists = [f for f in fields if f["k"] == "l"]
+                olists = [f for f in fields if f["k"] == "lo"]
+                if ft["foreach"] and lists and r < 0.2:
+                    stmts.append(self.foreach_scalar(rng.choice(lists), own))
+                elif ft["foreach"] and olists and r < 0.3:
+                    stmts.append(self.foreach_obj(rng.choice(olists), own))
+                elif ft["agg"] and lists and r < 0.4:
+                    stmts.append(self.aggregate(rng.choice(lists), own))
+                else:
+                    pool = reach if (rng.random() < 0.6 and len(reach) > len(own)) else own
+                    stmts.append(self.stmt(pool, self.cfg["depth"]))
+            cdef["blocks"].append({"n": "c%d" % b, "stmts": stmts})
+        return cdef
+
+    def foreach_scalar(self, lf, own):
+        rng = self.rng
+        elem = {"k": "s", "w": lf["w"], "s": lf["s"], "n": "it", "_p": [lf["n"], _loopvar(0, True)]}
+        pool = [elem] + [f for f in own if f["s"] == lf["s"]]
+        body = []
+        for _ in range(rng.randint(1, 2)):
+            r = rng.random()
+            if r < 0.25 and not lf["s"]:
+                # element vs index
+                body.append(EXPR(BIN(rng.choice(REL), {"t": "f", "p": elem["_p"]},
+                                     BIN("+", {"t": "idx"}, LIT(rng.randint(0, 3))))))
+            elif r < 0.45 and lf.get("sz", 0) >= 2:
+                # neighbour relation guarded by the index
+                nb = {"t": "f", "p": [lf["n"], _loopvar(0, False, -1)]}
+                body.append({"t": "if", "c": BIN(">", {"t": "idx"}, LIT(0)),
+                             "then": [EXPR(BIN(rng.choice(REL), {"t": "f", "p": [lf["n"], _loopvar(0, False)]}, nb))],
+                             "elifs": [], "else": None})
+            else:
+                body.append(self.stmt(pool, 1, kinds=["expr", "expr", "in"], nest=0))
+        return {"t": "foreach", "p": [lf["n"]], "it": True, "idx": True, "body": body}
+
+    def foreach_obj(self, lf, own):
+        rng = self.rng
+        by_name = {c["name"]: c for c in self.classes}
+        ec = by_name[lf["c"]]
+        elems = [dict(f, _p=[lf["n"], _loopvar(0, True), f["n"]])
+                 for f in ec["fields"] if f["k"] == "s"]
+        pool = elems + own
+        body = [self.stmt(pool, 1, kinds=["expr", "expr", "in"], nest=0)
+                for _ in range(rng.randint(1, 2))]
+        return {"t": "foreach", "p": [lf["n"]], "it": True, "idx": True, "body": body}
+
+    def aggregate(self, lf, own):
+        rng = self.rng
+        r = rng.random()
+        n = lf.get("sz", 0)
+        hi = ((1 << lf["w"]) - 1) if not lf["s"] else (1 << (lf["w"] - 1)) - 1
+        if r < 0.4:
+            tot = rng.randint(0, max(1, hi * n // 2))
+            return EXPR(BIN(rng.choice(["==", "<=", ">=", "<", ">"]), {"t": "sum", "p": [lf["n"]]}, LIT(tot)))
+        if r < 0.6 and n <= (1 << lf["w"]):
+            return {"t": "unique", "args": [{"t": "flist", "p": [lf["n"]]}]}
+        if r < 0.8:
+            cands = [f for f in own if f["s"] == lf["s"]]
+            if cands:
+                f = rng.choice(cands)
+                return EXPR({"t": "inlist", "e": {"t": "f", "p": f["_p"]}, "p": [lf["n"]]})
+        return EXPR(BIN(rng.choice(["==", "<=", ">="]), {"t": "sum", "p": [lf["n"]]},
+                        LIT(rng.randint(0, max(1, hi * n // 2)))))
+
+    def tree_program(self):
+        depth = self.feats["depth"]
+        if self.feats["enums"]:
+            self.enums = self.enum_defs(1)
+        for level in range(depth):
+            n = 1 if level == depth - 1 else self.rng.randint(1, 2)
+            for _ in range(n):
+                self.make_class(level)
+        top = self.classes[-1]["name"]
+        prog = {"enums": self.enums, "classes": [strip(c) for c in self.classes], "top": top}
+        return prog
